@@ -1113,6 +1113,10 @@ func (c *compiler) evalForExpression(node *ast.ForExpression) (interface{}, erro
 		if iter == nil {
 			return nil, nil
 		}
+		if rp := reflect.ValueOf(iter); rp.Kind() == reflect.Ptr && rp.IsNil() {
+			// a typed nil pointer is a nil iterable too (calling a value-receiver Next on it would panic)
+			return nil, nil
+		}
 		if it, ok := iter.(Iterator); ok {
 			i := 0
 			ii := it.Next()
